@@ -516,6 +516,7 @@ type Contract struct {
 	Opaque   map[string]bool // callees to treat as opaque even if contracted
 	Inline   bool
 	AssumeAfter map[string][]*Clause // label -> assumptions made right after a watched call returns (listed)
+	FreshResult bool // the (single, pointer) result is a freshly allocated object no one else references
 	Stable   []string // locations assumed not to be written by opaque callees (listed assumption)
 }
 
@@ -653,6 +654,8 @@ func (cs *ContractSet) LoadContractFile(path, pkgPath string, assumed bool) erro
 			cur.Pure = true
 		case "trusted":
 			cur.Trusted = true
+		case "fresh":
+			cur.FreshResult = true
 		case "inline":
 			cur.Inline = true
 		case "panics":
